@@ -324,7 +324,7 @@ def rule_all_parents(rep):
             node=d.node,
         )
         r.check(
-            re.search(r"\(?node, results, length, last_parent, traversed\)? = to_process\.pop\(\)", t) is not None and "length = length - 1" in t,
+            re.search(r"\(?node, results, length, last_parent, traversed\)? = to_process\.pop\(\)", t) is not None and "length -= 1" in t,
             "one step per popped node",
             "GLRParser._do_reductions:step",
             "the remaining path length is no longer decremented once per popped node",
